@@ -499,6 +499,31 @@ func sameState(a, b bstate) bool {
 
 var extWriters = map[string]bool{"sort.Strings": true, "sort.Ints": true, "sort.Slice": true, "sort.SliceStable": true, "sort.Sort": true, "sort.Stable": true}
 
+// extWrites: the external callee writes through a reference it receives.  Not a closed list of names: every function
+// of package sort except the searches / tests, and the mutating functions of slices and maps (also instantiated
+// generics: "slices.Sort[...]").
+func extWrites(name string) bool {
+	if extWriters[name] {
+		return true
+	}
+	base := name
+	if i := strings.Index(base, "["); i >= 0 {
+		base = base[:i]
+	}
+	switch {
+	case strings.HasPrefix(base, "sort."):
+		f := strings.TrimPrefix(base, "sort.")
+		return !strings.HasPrefix(f, "Search") && !strings.HasSuffix(f, "AreSorted") && !strings.HasPrefix(f, "IsSorted") && f != "Find"
+	case strings.HasPrefix(base, "slices."):
+		f := strings.TrimPrefix(base, "slices.")
+		return strings.HasPrefix(f, "Sort") || f == "Reverse"
+	case strings.HasPrefix(base, "maps."):
+		f := strings.TrimPrefix(base, "maps.")
+		return f == "Clear" || f == "Copy" || f == "DeleteFunc" || f == "Insert"
+	}
+	return false
+}
+
 func (an *accAn) analyze(f *ssa.Function, c *accCtx) {
 	if len(f.Blocks) == 0 {
 		return
@@ -750,7 +775,7 @@ func (an *accAn) call(f *ssa.Function, c *accCtx, ins ssa.Instruction, cc *ssa.C
 		// external function: arguments rooted in package-level state escape
 		for _, a := range cc.Args {
 			if cell := an.cellOf(a, c, 0); cell != "" && isRefType(a.Type()) {
-				rec(cell, extWriters[name], "escape", name)
+				rec(cell, extWrites(name), "escape", name)
 			}
 		}
 		// function arguments (callbacks) run in the caller's context
